@@ -236,6 +236,15 @@ def gen(rnd, tier):
                 if all(e[0] != t for e in B["es"]):
                     extra = [[t, "z"]] + ([[t, "zz"]] if rnd.random() < 0.3 else [])
                     B = dict(B, es=sorted(B["es"] + extra), hi=max(B["hi"], t))
+            if A["es"] and domain == "dec" and rnd.random() < 0.25:
+                # a point of B a few ulps beside a point of A: different time points, both must survive the union
+                # (round 3, C10-v2: the collision test of PointTier.insertEntry made tolerant)
+                import math
+                t = rnd.choice(A["es"])[0]
+                for _ in range(rnd.randint(1, 3)):
+                    t = math.nextafter(t, rnd.choice([-math.inf, math.inf]))
+                if t >= 0 and all(e[0] != t for e in B["es"]):
+                    B = dict(B, es=sorted(B["es"] + [[t, "u"]]), hi=max(B["hi"], t))
             yield {"op": "punion", "tier": A, "other": B, "grid": domain != "dec"}
 
 
